@@ -105,3 +105,17 @@ Definition guard_list : list (field * guard) := [
 ].
 
 Definition guard_map : guard_map_t := assoc_guard guard_list.
+
+(* By-value copies of package-level struct variables containing maps/slices, (variable, function).
+   Justification of the single admitted site:
+   - NewIRCServer initialises Config with config.DefaultConfig, so every fresh IRCServer shares the map
+     DefaultConfig.Banned (the only reference in DefaultConfig) until its Config is replaced.  The only
+     writer of Config.Banned is cmdGline, which needs an IRC operator; operators exist only in a
+     configuration that was applied (robust.Config entry -> i.Config = config.FromString(..), or
+     Unmarshal), and both build a fresh Network with a fresh Banned map.  So no instance ever writes the
+     shared default map, PROVIDED config.FromString / Unmarshal do not start from DefaultConfig - which
+     is exactly what this list enforces: any further copy site fails the obligation. *)
+Definition justified_global_aliases : list (string * string) := [
+  ("config.DefaultConfig", "internal/ircserver/ircserver.go:NewIRCServer")
+].
+
